@@ -184,7 +184,14 @@ func invalidate(r *verifrt.Rand, rep *jreport) (body []byte, why string) {
 		ensureProg().Program = verifrt.Pick(r, []string{"cmd/gofmt", "golang.org/x/tools/gopls2", "", "gopls"})
 		why = "program"
 	case 7:
-		ensureProg().Version = verifrt.Pick(r, []string{"v1.2.30", "v1.2", "", "devel"})
+		p := ensureProg()
+		p.Version = verifrt.Pick(r, []string{"v1.2.30", "v1.2", "", "devel"})
+		if r.Intn(3) == 0 {
+			// a module program claiming the (approved) Go version as its own
+			// version: approved versions are per program
+			p.Program, p.Counters, p.Stacks = "golang.org/x/tools/gopls", nil, nil
+			p.Version = p.GoVersion
+		}
 		why = "version"
 	case 8:
 		p := ensureProg()
